@@ -129,14 +129,14 @@ ADDENDA = {
          'vorbis_synthesis_blockin advances by blocksizes[previous]/4+blocksizes[current]/4 with the flags discovered from '
          'the stores (R01.6); the residue-2 de-interleave cursor starts at the vector position the offset names (R01.7, exact '
          'evaluation of the cursor initialisers); the bounds the codeword bisection unpacks from saturating hint fields have the '
-         'sign that makes saturation widen the search (R01.8).', ' + linear forms over block sizes + exact evaluation of initialisers'),
+         'sign that makes saturation widen the search (R01.8); the residue flags are propagated over the coupling steps on the vector being updated, so a flag set by one step is seen by the next (R01.9).', ' + linear forms over block sizes + exact evaluation of initialisers'),
  'C02': ('The window pcm_returned <= pcm_current is decided as an invariant of every decode-side writer by a relational '
          'pair-invariant analysis (affine upper bounds in the two fields, half-rate shift made concrete), whatever the form of '
          'the clamps; helper functions an unpacker was split into are analysed as part of it; initialisers clean up only an '
          'object they have wiped (R02.6); a table with one slot per used codebook entry is indexed by the used-entry counter '
          '(R02.7); the capacity of the decoder\'s channel buffers does not depend on the half-rate flag sampled at initialisation '
          '(R02.8); every codebook table the decoders read through is built on every successful initialisation of a book that has '
-         'entries (R02.9).',
+         'entries (R02.9); a backend routine taken from a registry at the type of number k is applied to the per-number object of the same k (R02.10); every packet-level decode call tolerates the wiped state a refused vorbis_synthesis_init leaves (R02.11, K4 nullness with vi and backend_state null on entry).',
          ' + relational pair-invariant analysis (affine bounds) for the returned/current window'),
  'C03': ('Search loops that run until a sentinel changes have no iteration that leaves the state unchanged (R03.2: K4 '
          'refinement of the exit conditions in the stuck state), and every libvorbis function vorbisfile hands a vorbis_info to '
@@ -146,18 +146,18 @@ ADDENDA = {
          'object is used only while libogg\'s sync buffer still holds it -- valid from a fetch that found a page until the next '
          'call that can reach ogg_sync_buffer, with the fetch helpers verified rather than assumed (R03.9); per-link tables are '
          'indexed by the link counter only where the handle is known seekable (R03.10); recursion depth in vorbisfile.c is bounded '
-         'by a constant (R03.11; the per-link recursion of the open-time link scan is a recorded known finding).',
+         'by a constant (R03.11; the per-link recursion of the open-time link scan is a recorded known finding); no per-link value is used stale across a link switch (R03.12); a search position that is stepped back and clamped just above a moving bound is stepped only while it is above the clamp value (R03.13: the controlling conditions entail it in an exact linear domain).',
          ' + stuck-state analysis of sentinel loops + null-entry analysis of the info accessors'),
  'C05': ('The managed-bitrate path hands out one of the PACKETBLOBS encodings (R05.6), residue entry numbers are mixed-radix '
          'numbers with digits below the radix (R05.7), and submap bundles pair each slot with one channel identically in '
          'encoder and decoder (R05.8); every residue entry handed to the book encoder passed a non-zero codeword-length test '
          'or the nearest-used-entry search on every path (R05.9); the buffer vorbis_analysis hands out directly is a slot of the '
-         'blob table the mapping writes (R05.10).', ' + K4 value analysis of blob choice and codeword digits + must-path analysis of the quantiser'),
+         'blob table the mapping writes (R05.10); every packetblob subscript of the packet-size search in vorbis_bitrate_addblock is inside the array, given that rint() of the floating average is (R05.11, K4; that premise is listed as an assumption).', ' + K4 value analysis of blob choice and codeword digits + must-path analysis of the quantiser'),
  'C07': ('Every accumulation of block sizes into a position is last/4 + this/4, as in the decoder (R07.12). The window history of vorbis_synthesis_blockin is recorded before anything reads it, also for track-only blocks '
          '(R07.8); events performed inside helper functions count (a helper that must restart the decoder, may move the stream); '
          'the data offsets seeks start from see their link\'s header fetch as last writer of the stream position (R07.9, '
          'provenance analysis); a scratch ogg_stream_state is live whenever it is used (R07.10, typestate); a negative position '
-         'is clamped in the link-relative frame, before the earlier links\' lengths are added (R07.11).',
+         'is clamped in the link-relative frame, before the earlier links\' lengths are added (R07.11); the link index a read reports is stored after the last call that may switch links (R07.3).',
          ' + provenance/last-writer analysis + libogg object typestate (K2 flags)'),
  'C08': ('The sample-discard loop of a sample-accurate seek makes progress: the remaining distance is at least one output '
          'sample whenever its body runs, at full and at half rate (R08.8); page properties kept in flags are recomputed for '
@@ -176,13 +176,13 @@ ADDENDA = {
          'was entered in (R10.4); serial numbers in the link table see their link\'s header fetch (R10.5); a fetched page is '
          'submitted to a stream state at most once, helpers summarised (R10.6: no spurious hole); the half-rate request '
          'survives the re-creation of the info at a streaming link boundary (R10.7); serial numbers are compared as signed values, '
-         'the way the link table stores them (R10.8).',
+         'the way the link table stores them (R10.8); a streaming handle decodes every link through its one table entry (R10.9); the first audio page of a link is delimited by dataoffsets[], the link start offsets[] is used only as an upper end, in raw arithmetic or against the caller\'s raw position (R10.10); a table value that was handed by address to a later page search is not what the header fetch left (R10.5).',
          ' + libogg page typestate (K2 flags with K5 entry states) + provenance analysis'),
  'C11': ('The lazily filled floor-0 cache is read only after the fill (R11.6); the arena reset may sit in a helper that performs '
          'it on every path.', ''),
  'C12': ('A lazy-initialisation gate is never left set by a failed initialisation (R12.8: the decode book table), buffered '
          'input is dropped only with the offset re-defined (R12.7); every loop around the packet fetch leaves on each failure '
-         'code the fetch can return, taken from the K5 outcome sets (R12.10).', ' + gate-reset path rule over helpers and their callers'),
+         'code the fetch can return, taken from the K5 outcome sets (R12.10); a clean-up hands a local aggregate to its release function only on paths on which it was initialised, callee summaries by result class (R12.11).', ' + gate-reset path rule over helpers and their callers'),
  'C13': ('Counts cover the elements filled (R13.8), arrays of owners are released element-wise (R13.9), live elements are not '
          're-initialised (R13.10); the info a live decoder refers to is not cleared under it (R13.11, typestate); a file-local '
          'helper may leave a freed pointer to callers that wipe the container; the set-up step that freezes the staged '
@@ -194,7 +194,7 @@ ADDENDA = {
          'has stored nothing (R15.7); requests on an existing set-up tolerate a cleared info (R15.8); a NaN does not survive a '
          'request whose value becomes an integer bound (R15.6 nan-rejected); no alloca on the analysis path is sized by the '
          'amount of audio submitted (R15.9); the staging calls refuse an info whose set-up was completed (R15.10); a capacity '
-         'grown under a need test is grown to at least the need (R15.11).', ' + K4 interval analysis (integer and floating) of set-up code'),
+         'grown under a need test is grown to at least the need (R15.11); the packet-size search of the bitrate manager stays inside the blob table (R15.12); the hard limits reach the bitrate manager ordered -- the conditions on the way to the stores refute min > max exactly (R15.13); a NaN reservoir bias is refused before it is stored (R15.6 nan-refused-before-store).', ' + K4 interval analysis (integer and floating) of set-up code'),
  'C16': ('Comment strings are allocated length+1 and filled exactly (R16.2); vorbis_comment_add grows both arrays alike and '
          'keeps the terminator inside the allocation (R16.5).', ''),
  'C17': ('The channel count used for interleaving is the decoded link\'s and is not stale across the packet fetch (R17.5, R17.6); '
@@ -207,13 +207,13 @@ ADDENDA = {
          'can be called again on the state it left: every window move is guarded by a test the function falsifies (R19.6); '
          'its relocations end at the block centre and the window fields move with the data (R19.7, linear identities); rows of a '
          'decoder view are read from their first sample, never at an offset (R19.8); in ov_crosslap every computed value depends on '
-         'one handle only until the splice (R19.9).',
+         'one handle only until the splice (R19.9); the second set of lapping parameters is recomputed after the seek (R19.10); the early range test of a lapped seek and its plain counterpart agree at the bound itself (R19.11); a fetch that stops at a link boundary does not answer end-of-file with the next link\'s first page consumed and neither submitted nor put back (R19.12).',
          ' + K4/K2 idempotence rule for lapout + linear identities over block-size locals'),
  'C20': ('Units of measure are checked in the block layer as well (R20.6: stream vs output samples meet only through the '
          'half-rate shift, the flag is never added to a sample count); the half-rate request is carried over when the info '
          'is discarded and rebuilt at a streaming link boundary (R20.8); ov_halfrate reports success only behind the completed '
          'all-links loop, which its own roll-back recursion relies on (R20.9); its refusal returns are reached without any decoder '
-         'dump on the path (R20.10).', ' + units-of-measure tag analysis in lib/block.c + K2 must-restore rule'),
+         'dump on the path (R20.10); the request is read from the info before it is discarded (R20.8); the position the toggle restores is bounded by the total (R20.11).', ' + units-of-measure tag analysis in lib/block.c + K2 must-restore rule'),
 }
 
 NA = {
